@@ -684,9 +684,26 @@ class C12(runner.Check):
 					w = v[0] - st
 					mirror[(m, s, L - st - w, "+" if strand == "-" else "-")] = v
 				out.bump("real.variant.rc_metamorphic")
+				def p_tie(k, sc):
+					# the forward table and the reverse-complement table are the same
+					# distribution summed in another order; when a bin's p-value equals
+					# the threshold to the last bit (dyadic thresholds), `p < threshold`
+					# is decided by rounding and may differ between the two strands
+					for strand in "+-":
+						t_ = oracle.table_for(k[0], strand)
+						b_ = int(sc / oracle.cfg["bin_size"]) - t_["smallest"]
+						for bb in (b_ - 1, b_, b_ + 1):
+							if 0 <= bb < len(t_["table"]):
+								pv = 2.0 ** t_["table"][bb]
+								if abs(pv - oracle.cfg["threshold"]) <= 1e-9 * oracle.cfg["threshold"]:
+									return True
+					return False
 				for k in set(mirror) ^ set(got):
 					t = oracle.table_for(k[0], k[3])
-					sc = (got.get(k) or mirror.get(k))[1]
+					sc = float((got.get(k) or mirror.get(k))[1])
+					if p_tie(k, sc):
+						out.bump("relaxed.rc_asymmetry_at_exact_p_value_tie")
+						continue
 					if abs(sc - t["thr"]) > 2 * oracle.band(t["thr"]):
 						out.violate("rc_asymmetric", "scanning the reverse complement of the "
 							"sequences does not give the mirror-image hit set: window %r "
